@@ -10,6 +10,7 @@ import (
 	"bytes"
 	"crypto/sha256"
 	"fmt"
+	mrand "math/rand"
 	"strings"
 
 	"github.com/superfly/macaroon"
@@ -414,6 +415,32 @@ func famForge(r *Rng, o *Out, tier string) {
 		if dup {
 			o.emit("(const sound)", "nonce-reuse")
 		} else {
+			o.emit("(const sound)", "sound")
+		}
+	}
+	// "independently minted tokens never share a nonce" whatever the host program does with ITS pseudo-random
+	// generator: the same math/rand seed before two mints (a host seeding for reproducible runs) must not make
+	// nonces, keys, tickets or sealed verifier keys repeat
+	{
+		key, ka := r.Bytes(32), r.Bytes(32)
+		type draw struct{ rnd, sk, ek, ticket, vk string }
+		mint := func() draw {
+			mrand.Seed(20260930) //nolint:staticcheck // deliberately the deprecated global seeding
+			t, _ := macaroon.New([]byte("kid"), "loc", key)
+			sk, ek := macaroon.NewSigningKey(), macaroon.NewEncryptionKey()
+			t.Add3P(ka, "https://auth.example")
+			c3 := macaroon.GetCaveats[*macaroon.Caveat3P](&t.UnsafeCaveats)[0]
+			return draw{string(t.Nonce.Rnd), string(sk), string(ek), string(c3.Ticket), string(c3.VerifierKey)}
+		}
+		a, b := mint(), mint()
+		switch {
+		case a.rnd == b.rnd:
+			o.emit("(const sound)", "nonce-follows-the-host-prng")
+		case a.sk == b.sk || a.ek == b.ek:
+			o.emit("(const sound)", "fresh-keys-follow-the-host-prng")
+		case a.ticket == b.ticket || a.vk == b.vk:
+			o.emit("(const sound)", "seal-follows-the-host-prng")
+		default:
 			o.emit("(const sound)", "sound")
 		}
 	}
